@@ -942,6 +942,78 @@ def emit_trace(res):
 FV_PINS = os.path.join(os.path.dirname(os.path.abspath(__file__)), "expected_fv.json")
 
 
+# ---------------------------------------------------------------- dtw_wps_loc / dtw_wps_loc_columns
+LOC_FUNCS=["dtw_wps_loc","dtw_wps_loc_columns"]
+
+def analyse_loc():
+    txt=canon_c(strip_comments(open(os.path.join(REPO,"src/DTAIDistanceC/DTAIDistanceC/dd_dtw.c")).read()))
+    res=[]
+    for fn in LOC_FUNCS:
+        m=re.search(r"^idx_t\s+%s\s*\(([^;{}]*?)\)\s*\{"%re.escape(fn),txt,flags=re.M|re.S)
+        if not m: raise TranslateError("function %s not found"%fn)
+        st=m.end()-1; body=txt[st:match_brace(txt,st)+1]
+        body=body.replace("p->","p.")
+        if len(re.findall(r"idx_t ri_width=p\.width;",body))!=1: raise TranslateError(fn+": ri_width is not initialised with p.width")
+        loops=[]
+        for m2 in re.finditer(r"for\s*\(\s*ri\s*=\s*([^;]+);\s*ri\s*<\s*([^;]+);\s*ri\+\+\s*\)\s*\{",body):
+            d=body[:m2.start()].count("{")-body[:m2.start()].count("}")
+            if d!=1: continue
+            b=m2.end()-1; loops.append((m2.start(),b,match_brace(body,b),m2.group(1),m2.group(2)))
+        want=[("1","p.ri1+1"),("p.ri1+1","p.ri2+1"),("p.ri2+1","p.ri3+1"),("p.ri3+1","l1+1")]
+        if [(l[3],l[4]) for l in loops]!=want: raise TranslateError("%s: row loops %s"%(fn,[(l[3],l[4]) for l in loops]))
+        prev_end=body.index("idx_t ri_width=p.width;")+len("idx_t ri_width=p.width;")
+        for R,(s,b,e,lo,hi) in zip("ABCD",loops):
+            where="%s region %s"%(fn,R)
+            pre=body[prev_end:s]
+            # a second `ri_width = p.width;` before region A is harmless
+            pre=pre.replace("ri_width=p.width;","")
+            global TRACKED
+            old = TRACKED
+            TRACKED = ("min_ci", "max_ci", "wpsi_start")
+            try:
+                state = exec_block(pre, {}, where)
+            finally:
+                TRACKED = old
+            inner=body[b+1:e]
+            d1=depth1(inner)
+            incs=set(re.findall(r"\b(min_ci|max_ci|wpsi_start)\+\+;",d1))
+            if len(re.findall(r"\bri_width\+=p\.width;",d1))!=1: raise TranslateError(where+": ri_width is not advanced by p.width")
+            ws=re.findall(r"\bwpsi=([^;]+);",d1)
+            if fn=="dtw_wps_loc_columns" and not ws: ws=["0"]
+            if len(ws)!=1 or ws[0] not in ("0","wpsi_start-1"): raise TranslateError(where+": wpsi initialised with %s"%ws)
+            w0="0" if ws[0]=="0" else "(%s - 1)"%state.get("wpsi_start")
+            if fn=="dtw_wps_loc":
+                if len(re.findall(r"\bci=min_ci;",d1))!=1: raise TranslateError(where+": ci = min_ci")
+                mc=re.search(r"for\(;ci<max_ci;ci\+\+\)\{if\(ri==r&&ci==c\)\{return ri_width\+wpsi;\}wpsi\+\+;\}",canon_c(inner).replace("\n",""))
+                if not mc: raise TranslateError(where+": cell loop")
+            else:
+                ret=re.search(r"if\(ri==r\)\{\*cb=min_ci;\*ce=max_ci;return ri_width(\+wpsi)?;\}",canon_c(inner).replace("\n",""))
+                if not ret: raise TranslateError(where+": return")
+                # `return ri_width` is only right when wpsi is 0
+                if ret.group(1) is None and ws[0]!="0": raise TranslateError(where+": returns ri_width although wpsi != 0")
+            res.append({"fn":fn,"region":R,"min0":state.get("min_ci"),"max0":state.get("max_ci"),"w0":w0,
+                        "dmin":1 if "min_ci" in incs else 0,"dmax":1 if "max_ci" in incs else 0,
+                        "dw":1 if ("wpsi_start" in incs and ws[0]!="0") else 0})
+            prev_end=e+1
+    return res
+
+def emit_loc(res):
+    lines=["(* GENERATED by tools/translate_c.py from src/DTAIDistanceC/DTAIDistanceC/dd_dtw.c -- do not edit *)",
+           "(* dtw_wps_loc / dtw_wps_loc_columns: the four row regions (matrix coordinates: row r = data row r-1, column 0 = border) *)",
+           "From Coq Require Import ZArith Bool String List.","From DVGen Require Import Gen_cfill.","Import ListNotations.","Open Scope Z_scope.","",
+           "Record loc_region := {","  lr_function : string; lr_region : region_id;",
+           "  lr_min0 : Z -> Z -> Z -> Z -> Z -> Z -> Z -> Z;","  lr_max0 : Z -> Z -> Z -> Z -> Z -> Z -> Z -> Z;",
+           "  lr_w0 : Z -> Z -> Z -> Z -> Z -> Z -> Z -> Z;","  lr_dmin : Z; lr_dmax : Z; lr_dw : Z }.","",
+           "Definition loc_regions : list loc_region := ["]
+    A="fun l2 window ldiff ldiffr ldiffc ri2 ri3 => "
+    rows=[]
+    for r in res:
+        rows.append('  {| lr_function := "%s"; lr_region := R%s;\n     lr_min0 := %s%s;\n     lr_max0 := %s%s;\n     lr_w0 := %s%s;\n     lr_dmin := %d; lr_dmax := %d; lr_dw := %d |}'%(
+            r["fn"],r["region"],A,r["min0"],A,r["max0"],A,r["w0"],r["dmin"],r["dmax"],r["dw"]))
+    lines.append(";\n".join(rows)); lines.append("].")
+    return "\n".join(lines)+"\n"
+
+
 def check_fv(defs):
     """The generated definitions take their free C variables as POSITIONAL parameters (sorted by name), and the
     theorems apply them positionally: a C expression that suddenly mentions another variable of the same kind
@@ -1078,6 +1150,16 @@ def coq_str_list(xs):
 
 def _main():
     outdir = sys.argv[1] if len(sys.argv) > 1 else "/verif/coq/gen"
+    try:
+        text = emit_loc(analyse_loc())
+    except (TranslateError, OSError) as exc:
+        print("TRANSLATE-ERROR: translate_c: %s" % exc)
+        sys.exit(2)
+    os.makedirs(outdir, exist_ok=True)
+    p = os.path.join(outdir, "Gen_cloc.v")
+    old = open(p).read() if os.path.exists(p) else None
+    if old != text:
+        open(p, "w").write(text)
     try:
         text = emit_expand(analyse_expand())
     except (TranslateError, OSError) as exc:
